@@ -61,8 +61,45 @@ for _m in ("shutdown", "shutdownSend", "shutdownReceive", "shutclose", "close"):
 REG.assume_note("C26: Incomer(...) construction and Incomer.shutdown/close/shutclose are opaque (traced); "
                 "listening-socket accept() is external: returns a (socket, address) pair or raises any errno")
 
-contract(F, "Acceptor.serviceAccepts", "C26", params=dict(self=Ref("Acceptor")), modifies=["self.axes[*]"],
-         verify=False, raises={"OSError": ["True"]}, note="assumed: appends accepted (socket, address) pairs to .axes")
+@hook("ListenSock", "getattr", "accept")
+def _ls_accept(E, ls):
+    """listening socket (external, demonic): raises socket.error with ANY errno, or returns a NEW connected socket
+    object and its peer address"""
+    def accept(E2):
+        if E2.choose(2) == 1:
+            from contracts.transport_decl import _raise_sockerr
+            _raise_sockerr(E2, [OSError])
+        cs = RefV(E2.new_ref(), "AccSock", nn=True)
+        ca = E2.fresh_val("peer_ca", HA)
+        E2.wr_field(cs, "peer", ca)
+        return (cs, ca)
+    accept._specfunc = True
+    return accept
+
+
+import errno as _errno
+_WB = (_errno.EAGAIN, _errno.EWOULDBLOCK)
+contract(F, "Acceptor.accept", "C26,C25", params=dict(self=Ref("Acceptor")), setup=c24_streams.sock_setup,
+         requires=["self.ss is not None"], modifies=[],
+         ensures=[
+             # would-block: nothing accepted, no state change (frame), no exception
+             "implies(sock_raised, errno in %r and result[0] is None)" % (_WB,),
+             "implies(not sock_raised, result[0] is not None and result[1] is not None and fresh(result[0]))",
+         ],
+         raises={"OSError": ["errno not in %r" % (_WB,)]},
+         returns=Tup(Opt(Ref("AccSock")), Opt(HA)))
+
+contract(F, "Acceptor.serviceAccepts", "C26", params=dict(self=Ref("Acceptor")), requires=["self.ss is not None"],
+         modifies=["self.axes[*]"],
+         loops={0: dict(inv=["len(self.axes) >= len(oldlist(self.axes))",
+                             "forall(lambda j: implies(0 <= j and j < len(oldlist(self.axes)), "
+                             "self.axes[j] == oldlist(self.axes)[j]))"])},
+         ensures=[
+             # the accept queue only grows at the back: what was queued before is still there, in order
+             "len(self.axes) >= len(oldlist(self.axes))",
+             "forall(lambda j: implies(0 <= j and j < len(oldlist(self.axes)), self.axes[j] == oldlist(self.axes)[j]))"],
+         raises={"OSError": ["True"]},
+         note="an accept error other than would-block propagates; pairs accepted before it stay queued")
 
 
 def _snap_axes(E):
@@ -91,7 +128,8 @@ contract(F, "Server.removeIx", "C26", params=dict(self=Ref("Server"), ca=HA, shu
 
 contract(F, "Server.serviceAxes", "C26", params=dict(self=Ref("Server")),
          assumes=["forall(Opaque('ha'), lambda k: implies(k in self.ixes, not fresh(self.ixes[k])))"],
-         requires=["forall(Opaque('ha'), Opaque('ha'), lambda k1, k2: implies(k1 != k2 and k1 in self.ixes and k2 in self.ixes, self.ixes[k1] is not self.ixes[k2]))"],
+         requires=["forall(Opaque('ha'), Opaque('ha'), lambda k1, k2: implies(k1 != k2 and k1 in self.ixes and k2 in self.ixes, self.ixes[k1] is not self.ixes[k2]))",
+                   "self.ss is not None"],
          ghost={"after": {"self.serviceAccepts()": _snap_axes}},
          modifies=["self.axes[*]", "self.ixes{*}", havoc_all_but({"Incomer": ["shut"]}, keep=[])], frame=False,
          loops={0: dict(inv=[
